@@ -172,7 +172,7 @@ var mixedUsers = []string{"u", "u", "exuser", "exns", "Exuser"}
 func webhookMixed(c *Ctx, n int, kind string, namespaces nsByName, newAdm func(lister admission.PodLister) *admission.Admission) {
 	r := NewRng(c.Seed + 1616)
 	pods := clusterLister{}
-	nsNames := []string{"priv", "restricted", "baseline", "exns", "badlabels", "missing"}
+	nsNames := mixedNamespaces
 	for _, ns := range nsNames {
 		for k := r.Intn(6); k > 0; k-- {
 			pods[ns] = append(pods[ns], genPopPod(r, k, []string{"exrc"}))
